@@ -28,7 +28,7 @@ const (
 	c32KeyDup       = "duplicate-bookkeepers-counted"
 )
 
-const c32Rule = "ledgers with VBFT genesis configurations (N,C) in {(7,1),(7,2),(10,3),(13,4),(15,1)}; next-height headers (AddHeaders on the running header tip; AddBlock on the block tip) whose bookkeeper list is built from members / non-members / duplicates (65% near-acceptance: L distinct members around C+1 with optional duplicates or one non-member; 35% arbitrary lists of length 0..N+3) and whose SigData holds k valid signatures by distinct members (k around n-6n/7 and C+1), invalid bytes, the same valid signature repeated, signatures by non-members / by members that are not listed / over another hash, in valid-first or shuffled order; a few headers with stale timestamp, wrong height or a LastConfigBlockNum that names no configuration; non-trivial = header with between 1 and C distinct valid member signatures, or accepted; distinct = different (listing, signature pattern, delivery)"
+const c32Rule = "ledgers with VBFT genesis configurations (N,C) in {(7,1),(7,2),(10,3),(13,4),(15,1)}; next-height headers (AddHeaders on the running header tip; AddBlock on the block tip) whose bookkeeper list is built from members / non-members / duplicates (65% near-acceptance: L distinct members around C+1 with optional duplicates or one non-member; 35% arbitrary lists of length 0..N+3) and whose SigData holds k valid signatures by distinct members (k around n-6n/7 and C+1), invalid bytes, the same valid signature repeated (also: all listed keys distinct and one signature both in its signer's own list slot and in an earlier slot), signatures by non-members / by members that are not listed / over another hash, in valid-first or shuffled order; a few headers with stale timestamp, wrong height or a LastConfigBlockNum that names no configuration; non-trivial = header with between 1 and C distinct valid member signatures, or accepted; distinct = different (listing, signature pattern, delivery)"
 
 type c32Ledger struct {
 	chain   *fix.Chain
@@ -309,6 +309,7 @@ func genC32Header(t *rapid.T, n, c int, viaBlock bool) c32Header {
 			k = L
 		}
 		signers := append([]int{}, perm[:k]...)
+		dupBeforeOwnSlot := false
 		switch rapid.IntRange(0, 13).Draw(t, "twist") {
 		case 0: // duplicates of listed members
 			nd := rapid.IntRange(1, 3).Draw(t, "ndup")
@@ -330,9 +331,26 @@ func genC32Header(t *rapid.T, n, c int, viaBlock bool) c32Header {
 					h.list = append(h.list, signers[0])
 				}
 			}
+		case 5, 6, 7: // all listed keys distinct; one member's signature sits in its own list slot AND in an earlier slot
+			mm := mCode(n)
+			if mm >= 2 && L >= mm {
+				j := rapid.IntRange(1, mm-1).Draw(t, "ownSlot")
+				i := rapid.IntRange(0, j-1).Draw(t, "earlierSlot")
+				signers = append([]int{}, h.list[:mm]...) // every signature in its signer's own slot ...
+				signers[i] = h.list[j]                    // ... except slot i, which repeats the signature of slot j
+				for p := 0; p < mm; p++ {
+					if p != i && p != j && rapid.IntRange(0, 3).Draw(t, "moreDup") == 0 {
+						signers[p] = h.list[j]
+					}
+				}
+				dupBeforeOwnSlot = true
+			}
 		}
 		for _, s := range signers {
 			h.sigs = append(h.sigs, c32Sig{"valid", s})
+		}
+		if dupBeforeOwnSlot {
+			return h // no extras, no shuffling: the placement is the point
 		}
 		// extras
 		ne := rapid.SampledFrom([]int{0, 0, 1, 2, 3}).Draw(t, "nextra")
